@@ -280,3 +280,202 @@ def replay_step(payload):
         nxt = repr(e)
     return {'walk_children': walked, 'first_child_next_chain': chain, 'TypeIgnore.next()': nxt,
             'reproduced': walked != chain}
+
+
+# ---------------------------------------------------------------------------------------------------------------------
+# interleaving classes: declarative rank-order specification
+#   next(x) is the present child with the smallest rank above rank(x); prev(x) the one with the largest rank below.
+# RANK gives (major, minor) per field as a function of the element index i and the lengths (all linear integer terms).
+
+def rank_tables():
+    def args_rank(L, field, i):
+        n = L['posonlyargs'] + L['args']
+        d = L['defaults']
+        return {
+            'posonlyargs': (0, 2 * i), 'args': (0, 2 * (L['posonlyargs'] + i)), 'defaults': (0, 2 * (n - d + i) + 1),
+            'vararg': (1, 0), 'kwonlyargs': (2, 2 * i), 'kw_defaults': (2, 2 * i + 1), 'kwarg': (3, 0)}[field]
+    return {
+        'Dict': (['keys*?', 'values*'], lambda L, f, i: {'keys': (0, 2 * i), 'values': (0, 2 * i + 1)}[f],
+                 lambda L: [L['keys'] == L['values']]),
+        # MatchMapping.keys are never None in a valid tree (pfst uses None only transiently inside an operation)
+        'MatchMapping': (['keys*', 'patterns*'], lambda L, f, i: {'keys': (0, 2 * i), 'patterns': (0, 2 * i + 1)}[f],
+                         lambda L: [L['keys'] == L['patterns']]),
+        'Compare': (['left', 'ops*', 'comparators*'],
+                    lambda L, f, i: {'left': (-1, 0), 'ops': (0, 2 * i), 'comparators': (0, 2 * i + 1)}[f],
+                    lambda L: [L['ops'] == L['comparators']]),
+        'arguments': (['posonlyargs*', 'args*', 'defaults*', 'vararg?', 'kwonlyargs*', 'kw_defaults*?', 'kwarg?'],
+                      args_rank,
+                      lambda L: [L['defaults'] <= L['posonlyargs'] + L['args'], L['kw_defaults'] == L['kwonlyargs']]),
+    }
+
+
+def validate_ranks(payload):
+    """native spec check: on the corpus, sorting the positioned children of every Dict / MatchMapping / Compare /
+    arguments node by rank gives CPython position order"""
+    from contracts import b_lib
+    T = rank_tables()
+    bad, n = [], 0
+    for name, src in b_lib.load_corpus():
+        for node in ast.walk(ast.parse(src)):
+            cls = node.__class__.__name__
+            if cls not in T:
+                continue
+            fields, rank, _ = T[cls]
+            L = {}
+            items = []
+            for f in fields:
+                fld = f.rstrip('*?')
+                v = getattr(node, fld, None)
+                if isinstance(v, list):
+                    L[fld] = len(v)
+            for f in fields:
+                fld = f.rstrip('*?')
+                v = getattr(node, fld, None)
+                vs = list(enumerate(v)) if isinstance(v, list) else ([(0, v)] if v is not None else [])
+                for i, c in vs:
+                    if c is not None and hasattr(c, 'lineno'):
+                        items.append((rank(L, fld, i), (c.lineno, c.col_offset), fld, i))
+            n += 1
+            by_rank = [p for _, p, _, _ in sorted(items, key=lambda t: t[0])]
+            if by_rank != sorted(by_rank):
+                bad.append(f'{name}: {cls}@{getattr(node, "lineno", "?")}: rank order is not position order')
+    return {'nodes': n, 'n_bad': len(bad), 'bad': bad[:5]}
+
+
+def special_specs(prop='C14'):
+    import z3
+    from pyvc import frontend, sym, values
+    from pyvc.contract import Fragment
+    from pyvc.interp import Interp, IFunc, SObj, PyRaise, Factory
+    from pyvc.sym import truth, eq, cur, SInt, lex_lt
+    from pyvc.logic import and_, or_, not_, implies, slen
+
+    T = rank_tables()
+
+    class FRef:
+        def __init__(self, field, idx):
+            self.field, self.idx = field, idx
+
+        def __repr__(self):
+            return f'F({self.field}[{self.idx}])'
+
+    PRESENT = {}
+
+    def present_fn(cls, fld):
+        k = (cls, fld)
+        if k not in PRESENT:
+            PRESENT[k] = z3.Function(f'present_{cls}_{fld}', z3.IntSort(), z3.BoolSort())
+        return PRESENT[k]
+
+    def make_node(cls, ctx):
+        fields, rank, inv = T[cls]
+        attrs, L = {}, {}
+        for f in fields:
+            fld = f.rstrip('*?')
+            if '*' in f:
+                maybe_none = f.endswith('?')
+
+                def elem(i, fld=fld, maybe_none=maybe_none):
+                    if maybe_none:
+                        if not truth(sym._wrap_bool(present_fn(cls, fld)(sym._z(i)))):
+                            return None
+                    return SObj(f'{cls}.{fld}[]', {}, f=FRef(fld, i))
+                lb = values.ListBase(f'{cls}.{fld}', elem)
+                L[fld] = lb.length()
+                attrs[fld] = values.SList.of_base(lb)
+            elif f.endswith('?'):
+                if truth(ctx.bool(f'has_{fld}')):
+                    attrs[fld] = SObj(f'{cls}.{fld}', {}, f=FRef(fld, None))
+                else:
+                    attrs[fld] = None
+            else:
+                attrs[fld] = SObj(f'{cls}.{fld}', {}, f=FRef(fld, None))
+        for c in inv(L):
+            ctx.assume(c)
+        return SObj(cls, attrs), L
+
+    def child_present(cls, node, L, fld, i):
+        fields = {f.rstrip('*?'): f for f in T[cls][0]}
+        f = fields[fld]
+        if '*' in f:
+            inr = and_(0 <= i, i < L[fld])
+            if f.endswith('?'):
+                return and_(inr, sym._wrap_bool(present_fn(cls, fld)(sym._z(i))))
+            return inr
+        return node._get(fld) is not None
+
+    def table(modname, varname):
+        d = frontend.module_assign(modname, varname)
+        out = {}
+        for k, v in zip(d.keys, d.values):
+            if isinstance(k, ast.Tuple) and len(k.elts) == 2 and isinstance(k.elts[0], ast.Name) \
+                    and isinstance(k.elts[1], ast.Constant) and isinstance(v, ast.Name):
+                out[(k.elts[0].id, k.elts[1].value)] = v.id
+        return out
+
+    out = []
+    for direction, modname, varname in (('next', 'traverse_next', 'NEXT_FUNCS'), ('prev', 'traverse_prev', 'PREV_FUNCS')):
+        tbl = table(modname, varname)
+        cases = []
+        for cls, (fields, _, _) in T.items():
+            for fld in [None] + [f.rstrip('*?') for f in fields]:
+                for yf in [f.rstrip('*?') for f in fields]:
+                    cases.append(dict(cls=cls, field=fld, fn=tbl.get((cls, fld)), y=yf, dir=direction))
+
+        def run(ctx, case, loc, pre, label, modname=modname, direction=direction):
+            cls, fld, fn, yf = case['cls'], case['field'], case['fn'], case['y']
+            name = f'{pre}.{direction}.{cls}.{fld or ("START" if direction == "next" else "END")}'
+            if fn is None:
+                ctx.prove(f'{name}.table_entry', False, info='no table entry')
+                return
+            fields, rank, _ = T[cls]
+            node, L = make_node(cls, ctx)
+            kinds = {f.rstrip('*?'): f for f in fields}
+            BIG = 10 ** 6
+            if fld is None:
+                idx, rx = None, ((-BIG, 0) if direction == 'next' else (BIG, 0))
+            else:
+                if '*' in kinds[fld]:
+                    idx = ctx.int('idx')
+                    if not truth(child_present(cls, node, L, fld, idx)):
+                        raise sym.PathAbort()   # requires: x is a present child
+                    rx = rank(L, fld, idx)
+                else:
+                    idx = None
+                    if node._get(fld) is None:
+                        raise sym.PathAbort()
+                    rx = rank(L, fld, 0)
+            floc = frontend.locate(f'{modname}:{fn}')
+            it = Interp({})
+            try:
+                got = it.call(IFunc(it, floc.node, None, fn), (node, idx))
+            except PyRaise as pr:
+                ctx.prove(f'{name}.no_raise', False, info=f'raised {pr.cls.__name__}: {pr.exc}')
+                return
+            ctx.notes['outcome'] = 'return'
+            # arbitrary other present child y = (yf, iy)
+            if '*' in kinds[yf]:
+                iy = ctx.int('iy')
+            else:
+                iy = 0
+            yp = child_present(cls, node, L, yf, iy)
+            ry = rank(L, yf, iy)
+            lt = (lambda a, b: lex_lt(a, b)) if direction == 'next' else (lambda a, b: lex_lt(b, a))
+            if got is None:
+                ctx.prove(f'{name}.none_means_last[y={yf}]', implies(yp, not_(lt(rx, ry))),
+                          info='returned None although a child lies further in that direction')
+                return
+            if not isinstance(got, FRef):
+                ctx.prove(f'{name}.returns_child', False, info=f'returned {got!r}')
+                return
+            gi = got.idx if got.idx is not None else 0
+            ctx.prove(f'{name}.result_is_present_child', child_present(cls, node, L, got.field, gi))
+            rg = rank(L, got.field, gi)
+            ctx.prove(f'{name}.result_is_beyond', lt(rx, rg))
+            ctx.prove(f'{name}.nothing_between[y={yf}]', implies(yp, not_(and_(lt(rx, ry), lt(ry, rg)))),
+                      info='a present child lies strictly between x and the returned node')
+
+        out.append(Fragment(f'{modname}:_{direction}_None', prop, 'rank', cases, run,
+                            notes='Dict / MatchMapping / Compare / arguments: next/prev == neighbour in rank order, '
+                                  'rank tables validated against CPython positions; Call/ClassDef merge loops not proved'))
+    return out
